@@ -47,7 +47,7 @@ func genNumber(r *Rng) string {
 }
 
 var strPool = []string{``, `a`, `key`, `hello world`, `with \"quotes\"`, `back\\slash`, `tab\there`, `nl\nnl`, `Aé€`, `😀`,
-	`é€😀`, `a/b\/c`, `\b\f\r`, `{not:"json"}`, `[1,2,3]`, `: , { } [ ]`, `ends with backslash \\`, `\\\"`, `0123456789012345678901234567890123456789`,
+	`é€😀`, `a/b\/c`, `\b\f\r`, `{not:\"json\"}`, `[1,2,3]`, `: , { } [ ]`, `ends with backslash \\`, `\\\"`, `0123456789012345678901234567890123456789`,
 	`x`, `yy`, `zzz`, `The quick brown fox jumps over the lazy dog and keeps running for a while longer than sixty-four bytes.`, `\u0000`, `\u001f`, ` `, `  spaces  `, `true`, `null`, `123`}
 
 func genStringBody(r *Rng) string {
